@@ -133,24 +133,29 @@ def run(ctx):
                 okk = dumped_payload(ex, d["items"][1]) == want
             if not okk:
                 ctx.violation("B:C19:impl:%s:%s" % (op, hdr), "dump on an impl item does not show the generated code / changes the item", {"layer": "B", "item": src, "args": op + ", dump", "plain": a, "dump": d})
-    # impl items whose request is split over sibling attributes and that carry foreign attributes: the dump (asked for in either list)
-    # shows all the generated impls, and the item comes back exactly as without dump (no derive_ex attribute left on it)
+    # impl items whose request is split over sibling attributes and that carry foreign attributes: `dump` is shared by the list it is
+    # written in - the forms requested by that list are shown, token for token, the forms of the other list are still generated, and the
+    # item comes back exactly as without dump (no derive_ex attribute left on it)
     body = "impl core::ops::Add<X> for X { type Output = X; fn add(self, rhs: X) -> X { X(self.0 + rhs.0) } }"
-    for first, sib, first_d, sib_d in [("Add", "AddAssign", "Add, dump", "AddAssign"), ("Add", "AddAssign", "Add", "AddAssign, dump"), ("AddAssign", "Add", "AddAssign, dump", "Add"), ("Add", None, "Add, dump", None)]:
+    nb = ex.attr("Add", body)
+    nbin = len(nb.get("items") or [None]) - 1        # number of derived binary forms (they come first in the merged expansion)
+    for first, sib, first_d, sib_d, dumped in [("Add", "AddAssign", "Add, dump", "AddAssign", "binary"), ("Add", "AddAssign", "Add", "AddAssign, dump", "assign"), ("AddAssign", "Add", "AddAssign, dump", "Add", "assign"),
+                                               ("Add", "AddAssign", "Add, dump", "AddAssign, dump", "all"), ("Add, AddAssign", None, "Add, AddAssign, dump", None, "all"), ("Add", None, "Add, dump", None, "all"),
+                                               ("AddAssign", "Add", "AddAssign", "Add, dump", "binary")]:
         for pre, post in (("", ""), ("/// doc\n #[allow(unused)] ", ""), ("", "#[cfg(all())] /// tail\n "), ("#[doc = \"a\"] ", "#[doc = \"b\"] ")):
-            if sib is None and not (pre or post):
-                continue
             mk = lambda s_: "%s%s%s%s" % (pre, ("#[derive_ex(%s)] " % s_) if s_ else "", post, body)
             a = ex.attr(first, mk(sib))
             d = ex.attr(first_d, mk(sib_d))
             ni += 1
-            okk = a["status"] == "ok" and d["status"] == "ok" and a.get("items") and d.get("items") and len(d["items"]) == 2 and d["items"][1]["kind"] == "compile_error" and d["items"][0]["canon"] == a["items"][0]["canon"] \
+            okk = a["status"] == "ok" and d["status"] == "ok" and a.get("items") and d.get("items") and nbin > 0 and d["items"][-1]["kind"] == "compile_error" and d["items"][0]["canon"] == a["items"][0]["canon"] \
                 and "derive_ex" not in d["items"][0]["canon"] and not any(i["kind"] == "compile_error" for i in a["items"])
             if okk:
-                okk = dumped_payload(ex, d["items"][1]) == canon_of(ex, " ".join(i["tokens"] for i in a["items"][1:]))
+                gen = a["items"][1:]
+                shown, kept = {"binary": (gen[:nbin], gen[nbin:]), "assign": (gen[nbin:], gen[:nbin]), "all": (gen, [])}[dumped]
+                okk = [i["canon"] for i in d["items"][1:-1]] == [i["canon"] for i in kept] and dumped_payload(ex, d["items"][-1]) == canon_of(ex, " ".join(i["tokens"] for i in shown))
             if not okk:
-                ctx.violation("B:C19:impl-siblings:%s|%s:%s" % (first_d, sib_d, (pre + "|" + post).strip()), "dump on an impl item with sibling / foreign attributes does not show the generated code, or changes the item",
-                              {"layer": "B", "item": mk(sib_d), "args": first_d, "plain_item": mk(sib), "plain_args": first, "plain": a, "dump": d})
+                ctx.violation("B:C19:impl-siblings:%s|%s:%s" % (first_d, sib_d, (pre + "|" + post).strip()), "dump on an impl item with sibling / foreign attributes: the forms of the dumping list are not shown token for token, the forms of the other list are not generated, or the item changed",
+                              {"layer": "B", "item": mk(sib_d), "args": first_d, "plain_item": mk(sib), "plain_args": first, "expected_dumped": dumped, "plain": a, "dump": d})
     ex.close()
     g = glayer.run_g(ctx, G_UNITS)
     ctx.assumptions += [
